@@ -691,3 +691,66 @@ Definition estep (vq : bool) (v : variant) (c : cfg) (s : ecomp) (o : eop) : eco
   end.
 Definition erun (vq : bool) (v : variant) (c : cfg) (s : ecomp) (ops : list eop) : ecomp :=
   fold_left (estep vq v c) ops s.
+
+(* ---------------------------------------------------------------- persisted mappings and process restart *)
+(* opdb namespace cgnat_mappings: session id -> (subscriber, block), written by commitMapping (persist = true) and
+   commitRestoredPBA, present for every record restoreFromOpDB is given, deleted by handleSessionRelease.  A restart
+   is a fresh pool, reverse index and session books over the same store: restoreFromOpDB replays every record (all
+   sessions present, reprogram ok), in the order the store lists them. *)
+Definition pdb := list (N * (N * block)).
+Definition db_put (sid : N) (kb : N * block) (d : pdb) : pdb := (sid, kb) :: filter (fun e => negb (fst e =? sid)) d.
+Definition db_del (sid : N) (d : pdb) : pdb := filter (fun e => negb (fst e =? sid)) d.
+Definition db_get (sid : N) (d : pdb) : option (N * block) :=
+  match find (fun e => fst e =? sid) d with Some e => Some (snd e) | None => None end.
+
+Definition db_step (v : variant) (c : cfg) (s : comp) (o : cop) (res : out) (d : pdb) : pdb :=
+  match o with
+  | CActivate sid k dp _ =>
+      if busy s sid then d else match res with RBlock true b => if dp then db_put sid (pk v k, b) d else d | _ => d end
+  | CActivateLate _ _ _ => d
+  | CAddComplete sid ok =>
+      match find (fun e => pend_sid e =? sid) (cp_pend s) with
+      | Some e =>
+          let k := snd (fst e) in
+          let b := snd e in
+          if ok && negb (v_late v && negb (existsb (block_eqb b) (blocks_of (cp_pool s) k))) then db_put sid (k, b) d else d
+      | None => d
+      end
+  | CSynced sid k mk mb dp _ =>
+      if busy s sid then d
+      else match restore v c (cp_pool s) mk mb true with
+           | Some _ => if dp then db_put sid (mk, mb) d else d
+           | None => match res with RBlock true b => if dp then db_put sid (pk v k, b) d else d | _ => d end
+           end
+  | CRelease sid k _ =>
+      let known := existsb (N.eqb sid) (cp_sess s)
+                   || (v_late v && existsb (fun e => pend_sid e =? sid) (cp_pend s))
+                   || (v_degrel v && existsb (N.eqb sid) (cp_deg s)) in
+      if known then match blocks_of (cp_pool s) (pk v k) with [] => d | _ => db_del sid d end else d
+  | CRestorePresent sid mk mb bulk _ =>
+      let d1 := db_put sid (mk, mb) d in
+      if negb (bulk =? 0) then
+        if busy s sid then d1 else match res with RBlock true b => db_put sid (pk v mk, b) d1 | _ => d1 end
+      else d1
+  | CRestoreDegraded sid mk mb => db_put sid (mk, mb) d
+  | CComplete => d
+  end.
+
+Record pcomp := { pc_comp : comp; pc_db : pdb }.
+Inductive pop :=
+| PEvent (o : cop)
+| PRestart (order : list N).     (* the order in which the store lists the persisted session ids *)
+Definition restart_ops (d : pdb) (order : list N) : list cop :=
+  flat_map (fun sid => match db_get sid d with Some (k, b) => [CRestorePresent sid k b 0 None] | None => [] end) order.
+Definition pstep (v : variant) (c : cfg) (p0 : pool) (s : pcomp) (o : pop) : pcomp :=
+  match o with
+  | PEvent co =>
+      let r := cstep v c (pc_comp s) co in
+      {| pc_comp := fst r; pc_db := db_step v c (pc_comp s) co (snd r) (pc_db s) |}
+  | PRestart order =>
+      (* every restored record is written back by commitRestoredPBA with the same subscriber and block *)
+      {| pc_comp := crun v c (comp_init p0) (restart_ops (pc_db s) order); pc_db := pc_db s |}
+  end.
+Definition prun (v : variant) (c : cfg) (p0 : pool) (s : pcomp) (ops : list pop) : pcomp :=
+  fold_left (pstep v c p0) ops s.
+Definition pcomp_init (p0 : pool) : pcomp := {| pc_comp := comp_init p0; pc_db := [] |}.
